@@ -168,6 +168,25 @@ def constructFaces (rowOf : Nat → Nat → List Int → List Int) (NF : Table) 
       if valence r < 3 then (st.1 + 1, st.2)
       else (st.1, st.2.set (i - st.1) (rowOf W i r))) (0, init)).2
 
+/-! ### schedule-free formulation (what a parallel per-node loop may rely on)
+
+  Node `i` writes row `keptBefore NF i` — the number of kept nodes with a smaller index, a function
+  of the input alone, not a loop-carried counter — so the nodes can be processed in any order. -/
+
+def keptBefore (NF : Table) (i : Nat) : Nat :=
+  ((List.range i).filter (fun j => decide (3 ≤ valence (rowAt NF j)))).length
+
+def schedStep (rowOf : Nat → Nat → List Int → List Int) (NF : Table) (W : Nat) (T : Table) (i : Nat) :
+    Table :=
+  if valence (rowAt NF i) < 3 then T else T.set (keptBefore NF i) (rowOf W i (rowAt NF i))
+
+/-- the per-node writes executed in the order `order` (any schedule of the iterations) -/
+def constructFacesSched (rowOf : Nat → Nat → List Int → List Int) (NF : Table) (order : List Nat) :
+    Table :=
+  let W := (NF.headD []).length
+  let cnt := NF.countP (fun r => decide (2 < valence r))
+  order.foldl (schedStep rowOf NF W) (List.replicate cnt (List.replicate W FILL))
+
 /-- coordinates as the code reads them: `(node_x, node_y, node_z)[i]` and the dual node
     `(face_x, face_y, face_z)[f]` -/
 def vecAt {K : Type} [OfNat K 0] (P : List (V3 K)) (i : Int) : V3 K :=
